@@ -20,26 +20,53 @@ import (
 	"strings"
 )
 
-type target struct{ dir, recv, fn, lean string }
+type target struct {
+	dir, recv, fn, lean string
+	full                bool // also the text of every simple statement: the arithmetic forks, where a changed operand is a changed result
+}
 
 var targets = []target{
-	{"tokens/type3", "RateLimitedAttester", "innerVerifyRequest", "attester_innerVerifyRequest"},
-	{"tokens/type3", "RateLimitedAttester", "VerifyRequest", "attester_VerifyRequest"},
-	{"tokens/type3", "RateLimitedAttester", "FinalizeIndex", "attester_FinalizeIndex"},
-	{"tokens/type3", "", "computeIndex", "computeIndex"},
-	{"tokens/type3", "RateLimitedIssuer", "Evaluate", "issuer3_Evaluate"},
-	{"tokens/type3", "", "decryptOriginTokenRequest", "decryptOriginTokenRequest"},
-	{"tokens/type3", "RateLimitedTokenRequestState", "FinalizeToken", "client3_FinalizeToken"},
-	{"tokens/type1", "BasicPrivateIssuer", "Evaluate", "issuer1_Evaluate"},
-	{"tokens/type1", "BasicPrivateIssuer", "Verify", "issuer1_Verify"},
-	{"tokens/type1", "BasicPrivateTokenRequestState", "FinalizeToken", "client1_FinalizeToken"},
-	{"tokens/type2", "BasicPublicIssuer", "Evaluate", "issuer2_Evaluate"},
-	{"tokens/type2", "BasicPublicTokenRequestState", "FinalizeToken", "client2_FinalizeToken"},
-	{"tokens/type5", "BatchedPrivateIssuer", "Evaluate", "issuer5_Evaluate"},
-	{"tokens/type5", "BatchedPrivateIssuer", "Verify", "issuer5_Verify"},
-	{"tokens/type5", "BatchedPrivateTokenRequestState", "FinalizeTokens", "client5_FinalizeTokens"},
-	{"tokens/batched", "BasicBatchedIssuer", "EvaluateBatch", "batch_EvaluateBatch"},
-	{"tokens/batched", "", "NewBasicBatchedIssuer", "batch_NewBasicBatchedIssuer"},
+	{"tokens/type3", "RateLimitedAttester", "innerVerifyRequest", "attester_innerVerifyRequest", false},
+	{"tokens/type3", "RateLimitedAttester", "VerifyRequest", "attester_VerifyRequest", false},
+	{"tokens/type3", "RateLimitedAttester", "FinalizeIndex", "attester_FinalizeIndex", false},
+	{"tokens/type3", "", "computeIndex", "computeIndex", false},
+	{"tokens/type3", "RateLimitedIssuer", "Evaluate", "issuer3_Evaluate", false},
+	{"tokens/type3", "", "decryptOriginTokenRequest", "decryptOriginTokenRequest", false},
+	{"tokens/type3", "RateLimitedTokenRequestState", "FinalizeToken", "client3_FinalizeToken", false},
+	{"tokens/type1", "BasicPrivateIssuer", "Evaluate", "issuer1_Evaluate", false},
+	{"tokens/type1", "BasicPrivateIssuer", "Verify", "issuer1_Verify", false},
+	{"tokens/type1", "BasicPrivateTokenRequestState", "FinalizeToken", "client1_FinalizeToken", false},
+	{"tokens/type2", "BasicPublicIssuer", "Evaluate", "issuer2_Evaluate", false},
+	{"tokens/type2", "BasicPublicTokenRequestState", "FinalizeToken", "client2_FinalizeToken", false},
+	{"tokens/type5", "BatchedPrivateIssuer", "Evaluate", "issuer5_Evaluate", false},
+	{"tokens/type5", "BatchedPrivateIssuer", "Verify", "issuer5_Verify", false},
+	{"tokens/type5", "BatchedPrivateTokenRequestState", "FinalizeTokens", "client5_FinalizeTokens", false},
+	{"tokens/batched", "BasicBatchedIssuer", "EvaluateBatch", "batch_EvaluateBatch", false},
+	{"tokens/batched", "", "NewBasicBatchedIssuer", "batch_NewBasicBatchedIssuer", false},
+	// the ECDSA fork (C12, C13) and the Ed25519 fork's top level (C14, C15): statement by statement
+	{"ecdsa", "", "hashToInt", "ecdsa_hashToInt", true},
+	{"ecdsa", "", "fermatInverse", "ecdsa_fermatInverse", true},
+	{"ecdsa", "", "randFieldElement", "ecdsa_randFieldElement", true},
+	{"ecdsa", "", "CreateKey", "ecdsa_CreateKey", true},
+	{"ecdsa", "", "GenerateKey", "ecdsa_GenerateKey", true},
+	{"ecdsa", "", "hashBlind", "ecdsa_hashBlind", true},
+	{"ecdsa", "", "BlindPublicKeyWithContext", "ecdsa_BlindPublicKeyWithContext", true},
+	{"ecdsa", "", "UnblindPublicKeyWithContext", "ecdsa_UnblindPublicKeyWithContext", true},
+	{"ecdsa", "", "BlindKeySignWithContext", "ecdsa_BlindKeySignWithContext", true},
+	{"ecdsa", "", "Sign", "ecdsa_Sign", true},
+	{"ecdsa", "", "signGeneric", "ecdsa_signGeneric", true},
+	{"ecdsa", "", "SignASN1", "ecdsa_SignASN1", true},
+	{"ecdsa", "", "Verify", "ecdsa_Verify", true},
+	{"ecdsa", "", "verifyGeneric", "ecdsa_verifyGeneric", true},
+	{"ecdsa", "", "VerifyASN1", "ecdsa_VerifyASN1", true},
+	{"ed25519", "", "GenerateKey", "ed_GenerateKey", true},
+	{"ed25519", "", "newKeyFromSeed", "ed_newKeyFromSeed", true},
+	{"ed25519", "", "signInternal", "ed_signInternal", true},
+	{"ed25519", "", "sign", "ed_sign", true},
+	{"ed25519", "", "Verify", "ed_Verify", true},
+	{"ed25519", "", "BlindPublicKeyWithContext", "ed_BlindPublicKeyWithContext", true},
+	{"ed25519", "", "UnblindPublicKeyWithContext", "ed_UnblindPublicKeyWithContext", true},
+	{"ed25519", "", "blindKeySign", "ed_blindKeySign", true},
 }
 
 func die(format string, a ...any) {
@@ -55,6 +82,23 @@ func str(fset *token.FileSet, n ast.Node) string {
 		s = s[:70] + "…"
 	}
 	return s
+}
+
+func full(fset *token.FileSet, n ast.Node) string {
+	// comments are not part of the pin
+	if ds, ok := n.(*ast.DeclStmt); ok {
+		if gd, ok := ds.Decl.(*ast.GenDecl); ok {
+			gd.Doc = nil
+			for _, sp := range gd.Specs {
+				if vs, ok := sp.(*ast.ValueSpec); ok {
+					vs.Doc, vs.Comment = nil, nil
+				}
+			}
+		}
+	}
+	var sb strings.Builder
+	printer.Fprint(&sb, fset, n)
+	return strings.Join(strings.Fields(sb.String()), " ")
 }
 
 func callee(c *ast.CallExpr) string {
@@ -169,7 +213,11 @@ func main() {
 					walk(s.Init)
 				}
 				calls(s.Cond)
-				add("if %s {", str(p.fset, s.Cond))
+				if t.full {
+					add("if %s {", full(p.fset, s.Cond))
+				} else {
+					add("if %s {", str(p.fset, s.Cond))
+				}
 				walk(s.Body)
 				if s.Else != nil {
 					add("} else {")
@@ -210,8 +258,15 @@ func main() {
 						kind = last
 					}
 				}
-				add("return %s", kind)
+				if t.full {
+					add("return %s: %s", kind, full(p.fset, s))
+				} else {
+					add("return %s", kind)
+				}
 			case *ast.AssignStmt:
+				if t.full {
+					add("stmt %s", full(p.fset, s))
+				}
 				for _, r := range s.Rhs {
 					calls(r)
 				}
@@ -226,6 +281,9 @@ func main() {
 					}
 				}
 			case *ast.ExprStmt:
+				if t.full {
+					add("stmt %s", full(p.fset, s))
+				}
 				calls(s.X)
 			case *ast.DeferStmt:
 				add("defer %s", callee(s.Call))
@@ -236,6 +294,9 @@ func main() {
 			case *ast.IncDecStmt:
 				// counters carry no decision
 			case *ast.DeclStmt:
+				if t.full {
+					add("stmt %s", full(p.fset, s))
+				}
 				calls(s)
 			default:
 				if n != nil {
